@@ -186,8 +186,12 @@ def gen_suite(rng: random.Random, with_warnings: bool = False, with_crash: bool 
             "def test_before(): pass\n\n"
             "def test_crash():\n"
             "    flag = os.path.join(os.environ['VERIF_REC'], 'crashed-once')\n"
-            "    if os.environ.get('PYTEST_XDIST_WORKER') and not os.path.exists(flag):\n"
-            "        open(flag, 'w').close()\n"
+            "    if os.environ.get('PYTEST_XDIST_WORKER'):\n"
+            "        try:\n"
+            "            # atomic: with --dist each every environment reaches this test at about the same time, exactly one may die\n"
+            "            os.close(os.open(flag, os.O_CREAT | os.O_EXCL | os.O_WRONLY))\n"
+            "        except FileExistsError:\n"
+            "            return\n"
             "        os._exit(1)\n\n"
             "def test_after(): pass\n")
     return files
